@@ -128,6 +128,7 @@ Definition check_dec (input : bytes) (kind value bu : N) : val :=
   then verdict 0 tg nontriv []
   else verdict 2 tg nontriv [VN (res_kind m); VN (res_val m); VN (res_bu m)].
 
+(* ENGINE vbi Codec.Vbi.vbi_engine *)
 Definition vbi_engine (c : val) : val :=
   match c with
   | VL [VN 0; VN n; VB enc] => check_enc n enc
